@@ -8,9 +8,11 @@ import (
 	"testing"
 
 	sdk "github.com/cosmos/cosmos-sdk/types"
+	"pgregory.net/rapid"
 
 	"verifharness/bridge"
 	"verifharness/pbt"
+	"verifharness/sim"
 )
 
 // recorder logs, per block boundary, the hash of all module state and of the
@@ -59,15 +61,65 @@ func c06Opts() bridge.GenOpts {
 	return o
 }
 
+// DetCase is either a whole-bridge history or an attestation history (late joiners, conflicting claims).
+type DetCase struct {
+	B *bridge.Case `json:"bridge,omitempty"`
+	A *AttCase     `json:"att,omitempty"`
+}
+
+func runAttDet(c *AttCase, runs int, rec *pbt.Rec) *pbt.Failure {
+	var first []string
+	for r := 0; r < runs; r++ {
+		var log []string
+		obs := func(h *sim.Hub, what string) {
+			if what == "end" {
+				log = append(log, fmt.Sprintf("end h=%d state=%s events=%s", h.Height, h.StateHash()[:16], eventsDigest(h.Events)))
+			} else {
+				log = append(log, what)
+			}
+		}
+		sub := &pbt.Rec{}
+		runAttCaseObs("C06", obs)(c, sub)
+		if r == 0 {
+			first = log
+			rec.NonTrivial = sub.NonTrivial || len(c.Vals) >= 3
+			rec.Label("attestation-history")
+			continue
+		}
+		n := len(first)
+		if len(log) < n {
+			n = len(log)
+		}
+		for i := 0; i < n; i++ {
+			if first[i] != log[i] {
+				return pbt.Failf("nondeterministic-state", "run 0 and run %d of the same claim history diverge at observation #%d:\n  %s\n  %s", r, i, first[i], log[i])
+			}
+		}
+		if len(first) != len(log) {
+			return pbt.Failf("nondeterministic-outcome", "run 0 made %d observations, run %d made %d", len(first), r, len(log))
+		}
+	}
+	return nil
+}
+
 func TestC06(t *testing.T) {
 	const runs = 4
 	(&pbt.Check{
 		ID:   "C06",
-		Rule: "whole-bridge histories with several tokens per pool, oracle price and holder claims of every validator, cross-chain transfers and executions; each history is executed in 4 fresh instances in one process (Go re-randomises every map range) and state hash + ABCI event digest are compared after every Begin/EndBlock; non-trivial = a history in which a map with >=2 keys was ranged (>=2 tokens unbatched at an even height, or an oracle epoch processed with >=2 claimers); distinct = distinct case JSON",
-		Gen:  bridge.GenCase(c06Opts()),
-		New:  func() interface{} { return &bridge.Case{} },
+		Rule: "whole-bridge histories (3 of 4 cases; the rest are claim histories with late joiners and conflicting claims, run 6 times) with several tokens per pool, oracle price and holder claims of every validator, cross-chain transfers and executions; each history is executed in 4 fresh instances in one process (Go re-randomises every map range) and state hash + ABCI event digest are compared after every Begin/EndBlock; non-trivial = a history in which a map with >=2 keys was ranged (>=2 tokens unbatched at an even height, or an oracle epoch processed with >=2 claimers); distinct = distinct case JSON",
+		Gen: func(t *rapid.T) interface{} {
+			if rapid.IntRange(0, 3).Draw(t, "family") == 0 {
+				return &DetCase{A: genAttCase(t).(*AttCase)}
+			}
+			return &DetCase{B: bridge.GenCase(c06Opts())(t).(*bridge.Case)}
+		},
+		New: func() interface{} { return &DetCase{} },
 		Run: func(ci interface{}, rec *pbt.Rec) *pbt.Failure {
-			c := ci.(*bridge.Case)
+			dc := ci.(*DetCase)
+			if dc.A != nil {
+				return runAttDet(dc.A, 6, rec)
+			}
+			c := dc.B
 			var first *recorder
 			var firstKey string
 			for r := 0; r < runs; r++ {
